@@ -57,9 +57,9 @@ int main(int argc, char **argv) {
     if (mode == "random") {
         FILE *out = fopen(argv[4], "w"); if (!out) return 2; std::mt19937_64 rng(strtoull(argv[2], 0, 10) * 31 + 7); long count = atol(argv[3]);
         static const char *addrs[] = {"/a", "/b", "/c", "/x/y0/z", "/p#q"};
-        for (long i = 0; i < count; ++i) { Exec e; int n = (int)(rng() % 61); int naddr = 1 + (int)(rng() % 5);
+        for (long i = 0; i < count; ++i) { Exec e; int n = (int)(rng() % 61); int naddr = 1 + (int)(rng() % 5); bool jumpy = rng() % 3 == 0;   // jumpy: events rarely merge, the cap is crossed
             int sig = vg_run(20, [&] { for (int j = 0; j < n; ++j) { int r = (int)(rng() % 10);
-                if (r < 6) { int ai = (int)(rng() % naddr); e.rec(addrs[ai], "ifcif"[ai], (long)(rng() % 200) - 100, (long)(rng() % 200) - 100); }
+                if (r < 6) { int ai = (int)(rng() % naddr); e.rec(addrs[ai], "ifcif"[ai], (long)(rng() % 200) - 100, (long)(rng() % 200) - 100); if (jumpy && rng() % 5) e.tick(3); }
                 else if (r < 8) e.seek((int)(rng() % 9) - 4 + ((rng() % 10 == 0) ? 25 : 0) - ((rng() % 10 == 0) ? 25 : 0));
                 else e.tick((int)(rng() % 4)); } });
             e.finish(out, sig); }
